@@ -151,6 +151,60 @@ impl<const M: usize> Circuit<F> for VarSha<M> {
     }
 }
 
+/// Variable-length Poseidon: a vector of at most M field elements (aligned to the rate), filled with `filler` around the data
+#[derive(Clone, Debug)]
+pub struct VarPos<const M: usize> {
+    pub elems: Vec<F>,
+    pub filler: F,
+    pub hash: bool,
+}
+
+impl<const M: usize> Circuit<F> for VarPos<M> {
+    type Config = <midnight_circuits::hash::poseidon::VarLenPoseidonGadget<F> as FromScratch<F>>::Config;
+    type FloorPlanner = SimpleFloorPlanner;
+    type Params = ();
+    fn without_witnesses(&self) -> Self {
+        self.clone()
+    }
+    fn configure(meta: &mut ConstraintSystem<F>) -> Self::Config {
+        let c = meta.instance_column();
+        let i = meta.instance_column();
+        midnight_circuits::hash::poseidon::VarLenPoseidonGadget::<F>::configure_from_scratch(meta, &[c, i])
+    }
+    fn synthesize(&self, config: Self::Config, mut l: impl Layouter<F>) -> Result<(), Error> {
+        use midnight_circuits::hash::poseidon::VarLenPoseidonGadget;
+        let g = VarLenPoseidonGadget::<F>::new_from_scratch(&config);
+        let ng = <NG as FromScratch<F>>::new_from_scratch(&config.0);
+        let vg = VectorGadget::new(&ng);
+        let l = &mut l;
+        let v: AssignedVector<F, AssignedNative<F>, M, 2> = vg.assign_with_filler(l, Value::known(self.elems.clone()), Some(self.filler))?;
+        if self.hash {
+            let out: AssignedNative<F> = <VarLenPoseidonGadget<F> as VarHashInstructions<F, M, AssignedNative<F>, AssignedNative<F>, 2>>::varhash(&g, l, &v)?;
+            note('n', 1);
+            ng.constrain_as_public_input(l, &out)?;
+        }
+        g.load_from_scratch(l)
+    }
+}
+
+fn run_varpos<const M: usize>(sc: &J, out: &mut dyn Write) {
+    let elems: Vec<F> = sc["inputs"].as_array().unwrap().iter().map(|x| k_of_big(&big_of_nat(x))).collect();
+    let filler: F = k_of_big(&big_of_nat(&sc["filler"]));
+    let k = sc["k"].as_u64().unwrap_or(12) as u32;
+    let only = VarPos::<M> { elems: elems.clone(), filler, hash: false };
+    let base_only = gad::run_game(&only, k, None);
+    let c = VarPos::<M> { elems, filler, hash: true };
+    let mut sc2 = sc.clone();
+    sc2["fam"] = json!("hash");
+    sc2["field"] = json!("none");
+    sc2["op"] = sc["alg"].clone();
+    sc2["params"] = json!([]);
+    sc2["ins"] = json!([]);
+    sc2["min_index"] = json!(base_only.nassign);
+    let extra = json!({"alg":sc["alg"],"msg":[],"inputs":sc["inputs"],"maxlen":M,"filler_elem":sc["filler"],"nin":0,"vec_assignments":base_only.nassign});
+    crate::c05::run_with_faults(&c, &sc2, extra, out);
+}
+
 fn sha_ng_config(c: &<VarLenSha256Gadget<F> as FromScratch<F>>::Config) -> <NG as FromScratch<F>>::Config {
     c.1.clone()
 }
@@ -265,6 +319,11 @@ pub fn main(args: &[String]) -> i32 {
                 _ => run_varsha::<192>(sc, &mut out),
             },
             "sponge" => sponge_session(sc, &mut out),
+            "poseidon_varlen" => match sc["maxlen"].as_u64().unwrap_or(8) {
+                4 => run_varpos::<4>(sc, &mut out),
+                8 => run_varpos::<8>(sc, &mut out),
+                _ => run_varpos::<12>(sc, &mut out),
+            },
             "poseidon_cpu" => {
                 // off-circuit: fixed-length hash, and the transcript sponge (no length, padding with the count)
                 let xs: Vec<F> = sc["inputs"].as_array().unwrap().iter().map(|x| k_of_big(&big_of_nat(x))).collect();
